@@ -608,8 +608,392 @@ Proof.
   destruct (Hd1 _ _ H1) as [L1 E1]. destruct (Hd2 _ _ H2) as [L2 E2].
   split; intro H.
   - subst. congruence.
-  - subst. eapply it_dec_inj; eauto. congruence.
+  - subst. eapply it_dec_inj; eauto; congruence.
 Qed.
 
 Lemma it_wf_nil : it_wf [].
 Proof. split; [intros [|i] c n H; discriminate | constructor]. Qed.
+
+(* ------------------------------------------------------------------------------------------ *)
+(* 4. memoize Do / Release                                                                      *)
+(* ------------------------------------------------------------------------------------------ *)
+Lemma al_get_del m k k' : al_get (al_del m k) k' = if k =? k' then None else al_get m k'.
+Proof.
+  induction m as [|[k0 a0] m IH]; cbn [al_del al_get].
+  - destruct (k =? k'); reflexivity.
+  - destruct (k0 =? k) eqn:E1.
+    + rewrite IH. apply Nat.eqb_eq in E1. subst k0. destruct (k =? k'); reflexivity.
+    + cbn [al_get]. destruct (k0 =? k') eqn:E3.
+      * destruct (k =? k') eqn:E2; auto. apply Nat.eqb_eq in E2, E3. subst. rewrite Nat.eqb_refl in E1. discriminate.
+      * apply IH.
+Qed.
+
+Lemma al_get_set m k a k' : al_get (al_set m k a) k' = if k =? k' then Some a else al_get m k'.
+Proof. unfold al_set. cbn [al_get]. destruct (k =? k') eqn:E; auto. rewrite al_get_del, E. reflexivity. Qed.
+
+Definition mm_live (ents : list mm_entry) (a k : nat) : Prop :=
+  exists e, nth_error ents a = Some e /\ e_key e = k /\ e_deleted e = false /\ e_owners e <> [].
+Definition mm_has_key (ents : list mm_entry) (a k : nat) : Prop :=
+  exists e, nth_error ents a = Some e /\ e_key e = k.
+Definition mm_flight_key (fl : list mm_flight) (f k : nat) : Prop :=
+  exists x, nth_error fl f = Some x /\ f_key x = k.
+
+Definition mm_inv (fn : nat -> option nat) (s : mm_sh) : Prop :=
+  (forall k a, al_get (m_map s) k = Some a -> mm_live (m_ents s) a k) /\
+  (forall a e, nth_error (m_ents s) a = Some e -> fn (e_key e) = Some (e_val e)) /\
+  (forall f x r, nth_error (m_flights s) f = Some x -> f_res x = Some r -> r = fn (f_key x)) /\
+  (forall k f, al_get (m_group s) k = Some f -> mm_flight_key (m_flights s) f k).
+
+Definition mm_pc_ok (fn : nat -> option nat) (s : mm_sh) (pc : mm_pc) : Prop :=
+  match pc with
+  | PD1 o k a => mm_has_key (m_ents s) a k
+  | PL0 o k f => mm_flight_key (m_flights s) f k
+  | PL2 o k f => mm_flight_key (m_flights s) f k
+  | PL1 o k f a => mm_flight_key (m_flights s) f k /\ mm_has_key (m_ents s) a k
+  | PL3 o k f r c => mm_flight_key (m_flights s) f k /\ r = fn k
+  | PWait o k f => mm_flight_key (m_flights s) f k
+  | PP0 o k r c => r = fn k
+  | PP1 o k a r c => r = fn k
+  | PRC o k a ks => mm_has_key (m_ents s) a k
+  | _ => True
+  end.
+
+Definition mm_res_ok (fn : nat -> option nat) (l : mm_lo) : Prop :=
+  forall k r c, In (k, r, c) (t_res l) -> r = fn k.
+
+Definition mm_stable (s s' : mm_sh) : Prop :=
+  (forall a k, mm_has_key (m_ents s) a k -> mm_has_key (m_ents s') a k) /\
+  (forall f k, mm_flight_key (m_flights s) f k -> mm_flight_key (m_flights s') f k).
+
+Lemma mm_stable_refl s : mm_stable s s.
+Proof. split; auto. Qed.
+
+Lemma mm_pc_ok_stable fn s s' pc : mm_stable s s' -> mm_pc_ok fn s pc -> mm_pc_ok fn s' pc.
+Proof. intros [H1 H2]. destruct pc; cbn; auto; try tauto; intros [A B]; split; auto. Qed.
+
+Lemma mm_live_has_key ents a k : mm_live ents a k -> mm_has_key ents a k.
+Proof. intros (e & H1 & H2 & _). exists e. auto. Qed.
+
+Lemma mm_add_owner_nonempty o l : mm_add_owner o l <> [].
+Proof.
+  unfold mm_add_owner. destruct (existsb (Nat.eqb o) l) eqn:E; [|discriminate].
+  destruct l; [discriminate E | discriminate].
+Qed.
+
+(* replacing entry a by one with the same key and value, together with a new map whose bindings
+   are old bindings that do not point to a dead entry *)
+Lemma mm_inv_upd fn s a e e' m' :
+  mm_inv fn s -> nth_error (m_ents s) a = Some e -> e_key e' = e_key e -> e_val e' = e_val e ->
+  (forall k' a0, al_get m' k' = Some a0 ->
+     al_get (m_map s) k' = Some a0 /\ (a0 = a -> e_deleted e' = false /\ e_owners e' <> [])) ->
+  mm_inv fn (mk_mm_sh (cset_nth (m_ents s) a e') m' (m_flights s) (m_group s)).
+Proof.
+  intros (I1 & I2 & I3 & I4) Ea Hk Hv Hm. unfold mm_inv; cbn [m_ents m_map m_flights m_group].
+  repeat split; auto.
+  - intros k a0 Hg. destruct (Hm _ _ Hg) as [Hold Hlive]. destruct (I1 _ _ Hold) as (e0 & N0 & K0 & D0 & O0).
+    destruct (Nat.eq_dec a0 a) as [->|Hne].
+    + destruct (Hlive eq_refl) as [D' O']. exists e'. rewrite (nth_error_cset_nth_eq _ _ _ _ Ea).
+      repeat split; auto. congruence.
+    + exists e0. rewrite nth_error_cset_nth_neq by auto. auto.
+  - intros a0 e0 H. rewrite nth_error_cset_nth in H. destruct (a =? a0) eqn:E.
+    + apply Nat.eqb_eq in E. subst a0. rewrite Ea in H. cbn in H. inversion H; subst e0.
+      rewrite Hk, Hv. eauto.
+    + eauto.
+Qed.
+
+Lemma mm_stable_upd s a e e' m' fl g :
+  nth_error (m_ents s) a = Some e -> e_key e' = e_key e ->
+  (forall f k, mm_flight_key (m_flights s) f k -> mm_flight_key fl f k) ->
+  mm_stable s (mk_mm_sh (cset_nth (m_ents s) a e') m' fl g).
+Proof.
+  intros Ea Hk Hf. split; cbn [m_ents m_flights]; auto.
+  intros a0 k (e0 & N0 & K0). destruct (Nat.eq_dec a0 a) as [->|Hne].
+  - exists e'. rewrite (nth_error_cset_nth_eq _ _ _ _ Ea). split; congruence.
+  - exists e0. rewrite nth_error_cset_nth_neq by auto. auto.
+Qed.
+
+Lemma mm_try_add_ok fn s a o s' v :
+  mm_inv fn s -> mm_try_add s a o = Some (s', v) ->
+  mm_inv fn s' /\ mm_stable s s' /\ (forall k, mm_has_key (m_ents s) a k -> fn k = Some v).
+Proof.
+  intros Hinv H. unfold mm_try_add in H. destruct (nth_error (m_ents s) a) as [e|] eqn:Ea; [|discriminate].
+  destruct (e_deleted e) eqn:D; [discriminate|]. inversion H; subst s' v; clear H. split; [|split].
+  - eapply mm_inv_upd; eauto. intros k' a0 Hg. split; auto. intros _. cbn. split; auto. apply mm_add_owner_nonempty.
+  - eapply mm_stable_upd; eauto.
+  - intros k (e0 & N0 & K0). rewrite Ea in N0. inversion N0; subst e0. destruct Hinv as (_ & I2 & _).
+    rewrite <- K0. eauto.
+Qed.
+
+Lemma mm_flight_key_app fl x f k : mm_flight_key fl f k -> mm_flight_key (fl ++ [x]) f k.
+Proof.
+  intros (y & N & K). exists y. split; auto. rewrite nth_error_app1; auto. apply nth_error_Some. congruence.
+Qed.
+
+Lemma mm_has_key_app ents x a k : mm_has_key ents a k -> mm_has_key (ents ++ [x]) a k.
+Proof.
+  intros (y & N & K). exists y. split; auto. rewrite nth_error_app1; auto. apply nth_error_Some. congruence.
+Qed.
+
+Ltac mm_same := split; [assumption | split; [apply mm_stable_refl | split]].
+
+Lemma mm_res_ok_finish fn ops pc res k r c :
+  mm_res_ok fn (mk_mm_lo ops pc res) -> r = fn k -> mm_res_ok fn (mk_mm_lo ops PIdle (res ++ [(k, r, c)])).
+Proof.
+  intros H E k0 r0 c0 HI. cbn in HI. apply in_app_or in HI as [HI|[HI|[]]].
+  - eapply H; cbn; eauto.
+  - inversion HI; subst. reflexivity.
+Qed.
+
+Lemma mm_step_ok fn s l :
+  mm_inv fn s -> mm_pc_ok fn s (t_pc l) -> mm_res_ok fn l ->
+  let '(s', l') := mm_step fn s l in
+  mm_inv fn s' /\ mm_stable s s' /\ mm_pc_ok fn s' (t_pc l') /\ mm_res_ok fn l'.
+Proof.
+  intros Hinv Hpc Hres. destruct l as [ops pc res]. cbn [t_pc] in Hpc.
+  assert (Hinv0 := Hinv). destruct Hinv0 as (I1 & I2 & I3 & I4).
+  destruct pc as [ |o k|o k a|o k|o k f|o k f a|o k f|o k f r c|o k f|o k r c|o k a r c|o ks|o k a ks];
+    unfold mm_step; cbn [t_pc t_ops t_res].
+  - (* PIdle *)
+    destruct ops as [|[o k|o ks] ops]; mm_same; cbn; auto.
+  - (* PD0 *)
+    destruct (al_get (m_map s) k) as [a|] eqn:E; unfold mm_goto; mm_same; cbn; auto.
+    apply mm_live_has_key; auto.
+  - (* PD1 *)
+    destruct (mm_try_add s a o) as [[s' v]|] eqn:E.
+    + destruct (mm_try_add_ok fn s a o s' v Hinv E) as (Hi' & Hs' & Hv).
+      unfold mm_finish. split; auto. split; auto. split; [exact I|].
+      apply mm_res_ok_finish; auto. symmetry. apply Hv, Hpc.
+    + unfold mm_goto; mm_same; cbn; auto.
+  - (* PD2 *)
+    destruct (al_get (m_group s) k) as [f|] eqn:E; unfold mm_goto.
+    + mm_same; cbn; auto.
+    + cbn [t_pc t_ops t_res]. split; [|split; [|split]]; auto.
+      * unfold mm_inv; cbn [m_ents m_map m_flights m_group]. repeat split; auto.
+        -- intros f x r N R. destruct (Nat.lt_ge_cases f (length (m_flights s))) as [Hl|Hl].
+           ++ rewrite nth_error_app1 in N by lia. eauto.
+           ++ rewrite nth_error_app2 in N by lia. destruct (f - length (m_flights s)) as [|[|d]]; cbn in N; try discriminate.
+              inversion N; subst x. discriminate.
+        -- intros k' f Hg. rewrite al_get_set in Hg. destruct (k =? k') eqn:Ek.
+           ++ apply Nat.eqb_eq in Ek. subst k'. inversion Hg; subst f.
+              exists (mk_flight k None). rewrite nth_error_app2, Nat.sub_diag by lia. auto.
+           ++ apply mm_flight_key_app; auto.
+      * split; cbn [m_ents m_flights]; auto. intros; apply mm_flight_key_app; auto.
+      * cbn. exists (mk_flight k None). rewrite nth_error_app2, Nat.sub_diag by lia. auto.
+  - (* PL0 *)
+    destruct (al_get (m_map s) k) as [a|] eqn:E; unfold mm_goto; mm_same; cbn; auto.
+    split; auto. apply mm_live_has_key; auto.
+  - (* PL1 *)
+    destruct Hpc as [Hf Hk].
+    destruct (mm_try_add s a o) as [[s' v]|] eqn:E.
+    + destruct (mm_try_add_ok fn s a o s' v Hinv E) as (Hi' & Hs' & Hv).
+      unfold mm_goto. split; auto. split; auto. split; auto.
+      cbn. split; [apply Hs'; auto | symmetry; auto].
+    + unfold mm_goto; mm_same; cbn; auto.
+  - (* PL2 *)
+    destruct (fn k) as [v|] eqn:Efn; unfold mm_goto; cbn [t_pc t_ops t_res].
+    + split; [|split; [|split]]; auto.
+      * unfold mm_inv; cbn [m_ents m_map m_flights m_group]. repeat split; auto.
+        -- intros k' a Hg. rewrite al_get_set in Hg. destruct (k =? k') eqn:Ek.
+           ++ apply Nat.eqb_eq in Ek. subst k'. inversion Hg; subst a.
+              exists (mk_entry k v [o] false). rewrite nth_error_app2, Nat.sub_diag by lia.
+              cbn. repeat split; auto. discriminate.
+           ++ destruct (I1 _ _ Hg) as (e & N & R). exists e. split; auto.
+              rewrite nth_error_app1; auto. apply nth_error_Some. congruence.
+        -- intros a e N. destruct (Nat.lt_ge_cases a (length (m_ents s))) as [Hl|Hl].
+           ++ rewrite nth_error_app1 in N by lia. eauto.
+           ++ rewrite nth_error_app2 in N by lia. destruct (a - length (m_ents s)) as [|[|d]]; cbn in N; try discriminate.
+              inversion N; subst e. cbn. exact Efn.
+      * split; cbn [m_ents m_flights]; auto. intros; apply mm_has_key_app; auto.
+      * cbn. auto.
+    + mm_same; cbn; auto.
+  - (* PL3 *)
+    destruct Hpc as [Hf Hr]. unfold mm_goto; cbn [t_pc t_ops t_res].
+    destruct Hf as (x & Nx & Kx).
+    assert (Hfk : forall f0 k0, mm_flight_key (m_flights s) f0 k0 ->
+                   mm_flight_key (cset_nth (m_flights s) f (mk_flight k (Some r))) f0 k0).
+    { intros f0 k0 (y & Ny & Ky). destruct (Nat.eq_dec f0 f) as [->|Hne].
+      - exists (mk_flight k (Some r)). rewrite (nth_error_cset_nth_eq _ _ _ _ Nx). split; auto. cbn. congruence.
+      - exists y. rewrite nth_error_cset_nth_neq by auto. auto. }
+    split; [|split; [|split]]; auto.
+    + unfold mm_inv; cbn [m_ents m_map m_flights m_group]. repeat split; auto.
+      * intros f0 y r0 N R. rewrite nth_error_cset_nth in N. destruct (f =? f0) eqn:Ef.
+        -- rewrite Nat.eqb_eq in Ef. subst f0. rewrite Nx in N. cbn in N. inversion N; subst y. cbn in *. congruence.
+        -- eauto.
+      * intros k' f0 Hg. rewrite al_get_del in Hg. destruct (k =? k'); [discriminate|]. auto.
+    + split; cbn [m_ents m_flights]; auto.
+  - (* PWait *)
+    destruct (nth_error (m_flights s) f) as [fl|] eqn:N; [|mm_same; cbn; auto].
+    destruct (f_res fl) as [r|] eqn:R; [|mm_same; cbn; auto].
+    unfold mm_goto; mm_same; cbn; auto.
+    destruct Hpc as (x & Nx & Kx). rewrite N in Nx. inversion Nx; subst x. rewrite <- Kx. eauto.
+  - (* PP0 *)
+    cbn in Hpc. destruct r as [v|].
+    + destruct (al_get (m_map s) k) as [a|] eqn:E.
+      * unfold mm_goto; mm_same; cbn; auto.
+      * unfold mm_finish; mm_same; cbn; auto. apply mm_res_ok_finish; auto.
+    + unfold mm_finish; mm_same; cbn; auto. apply mm_res_ok_finish; auto.
+  - (* PP1 *)
+    cbn in Hpc. destruct (mm_try_add s a o) as [[s' v]|] eqn:E.
+    + destruct (mm_try_add_ok fn s a o s' v Hinv E) as (Hi' & Hs' & Hv).
+      unfold mm_finish. split; auto. split; auto. split; [exact I|]. apply mm_res_ok_finish; auto.
+    + unfold mm_finish; mm_same; cbn; auto. apply mm_res_ok_finish; auto.
+  - (* PR *)
+    destruct ks as [|k ks].
+    + unfold mm_goto; mm_same; cbn; auto.
+    + destruct (al_get (m_map s) k) as [a|] eqn:E; unfold mm_goto; mm_same; cbn; auto.
+      apply mm_live_has_key; auto.
+  - (* PRC *)
+    destruct Hpc as (e & Ne & Ke). rewrite Ne.
+    destruct (mm_del_owner o (e_owners e)) as [|o1 ow] eqn:Eo; unfold mm_goto; cbn [t_pc t_ops t_res].
+    + split; [|split; [|split]]; auto.
+      * eapply mm_inv_upd; eauto. intros k' a0 Hg. rewrite al_get_del in Hg.
+        destruct (k =? k') eqn:Ek; [discriminate|]. split; auto. intros ->.
+        destruct (I1 _ _ Hg) as (e0 & N0 & K0 & _). rewrite Ne in N0. inversion N0; subst e0.
+        apply Nat.eqb_neq in Ek. congruence.
+      * eapply mm_stable_upd; eauto.
+      * cbn. auto.
+    + split; [|split; [|split]]; auto.
+      * eapply mm_inv_upd; eauto. intros k' a0 Hg. split; auto. intros ->.
+        destruct (I1 _ _ Hg) as (e0 & N0 & K0 & D0 & O0). rewrite Ne in N0. inversion N0; subst e0.
+        cbn. split; auto. discriminate.
+      * eapply mm_stable_upd; eauto.
+      * cbn. auto.
+Qed.
+
+Definition mm_sys_inv (fn : nat -> option nat) (s : mm_sh) (ls : list mm_lo) : Prop :=
+  mm_inv fn s /\ forall l, In l ls -> mm_pc_ok fn s (t_pc l) /\ mm_res_ok fn l.
+
+Lemma mm_sys_inv_run fn : forall sched s ls, mm_sys_inv fn s ls ->
+  mm_sys_inv fn (fst (mm_run fn sched (s, ls))) (snd (mm_run fn sched (s, ls))).
+Proof.
+  induction sched as [|i sched IH]; intros s ls HJ; [exact HJ|].
+  cbn [mm_run fold_left mm_sys_step]. destruct (nth_error ls i) as [l|] eqn:El; [|apply IH, HJ].
+  destruct HJ as [Hinv Hall]. destruct (Hall _ (nth_error_In _ _ El)) as [Hpc Hres].
+  pose proof (mm_step_ok fn s l Hinv Hpc Hres) as S.
+  destruct (mm_step fn s l) as [s' l']. destruct S as (Hinv' & Hst & Hpc' & Hres').
+  apply IH. split; auto. intros y Hy. apply In_cset_nth in Hy as [->|Hy]; auto.
+  destruct (Hall _ Hy) as [P R]. split; auto. eapply mm_pc_ok_stable; eauto.
+Qed.
+
+Lemma mm_sys_inv_start fn opss : mm_sys_inv fn mm_empty (map mm_start opss).
+Proof.
+  split.
+  - unfold mm_inv, mm_empty; cbn. repeat split; intros; try discriminate; destruct a; discriminate || (destruct f; discriminate).
+  - intros l Hl. apply in_map_iff in Hl as (ops & <- & _). split; [exact I | intros k r c []].
+Qed.
+
+(* for EVERY interleaving of Do / Release steps of any number of goroutines:
+   (1) an entry reachable from the cache is not marked deleted and has at least one owner,
+   (2) every completed Do returned exactly fn key (a value for that key, or fn's error) *)
+Theorem mm_memo_refcount : forall fn sched opss,
+  let st := mm_run fn sched (mm_empty, map mm_start opss) in
+  (forall k a, al_get (m_map (fst st)) k = Some a -> mm_live (m_ents (fst st)) a k) /\
+  (forall l k r c, In l (snd st) -> In (k, r, c) (t_res l) -> r = fn k).
+Proof.
+  intros fn sched opss st.
+  destruct (mm_sys_inv_run fn sched _ _ (mm_sys_inv_start fn opss)) as [(I1 & _) Hall]. fold st in I1, Hall.
+  split; auto. intros l k r c Hl Hr. destruct (Hall _ Hl) as [_ R]. eapply R; eauto.
+Qed.
+
+(* what the model ALSO shows (not a violation of C06, reported as an observation): a Release whose
+   Range yielded an entry that another Release deleted meanwhile calls cache.Delete(key) again and
+   removes a NEWER entry of the same key that a third WAF has just stored and still owns *)
+Definition mm_stale_threads := [mm_start [MRelease 1 [7]]; mm_start [MDo 2 7; MRelease 2 [7]]; mm_start [MDo 3 7]].
+Definition mm_stale_sched :=
+  [1;1;1;1;1;1;1;1] (* WAF 2 compiles key 7 *) ++ [0;0] (* Release(1) reaches key 7: entry e0 in hand *) ++
+  [1;1;1;1] (* Release(2) deletes e0 *) ++ [2;2;2;2;2;2;2;2] (* WAF 3 stores a new entry for key 7 *) ++
+  [0;0] (* Release(1)'s critical section on the stale e0: deletes key 7 again *).
+Lemma mm_stale_release_drops_live_entry :
+  let st := mm_run (fun k => Some k) mm_stale_sched (mm_empty, mm_stale_threads) in
+  al_get (m_map (fst st)) 7 = None /\
+  (exists l, nth_error (snd st) 2 = Some l /\ t_res l = [(7, Some 7, true)] /\ t_ops l = [] /\ t_pc l = PIdle).
+Proof. vm_compute. split; [reflexivity | eexists; repeat split]. Qed.
+
+(* ------------------------------------------------------------------------------------------ *)
+(* 5. the serial audit writer                                                                   *)
+(* ------------------------------------------------------------------------------------------ *)
+Lemma au_run_log : forall sched log ws,
+  fst (au_run sched (log, ws)) = log ++ flat_map au_frame (au_emitted sched ws).
+Proof.
+  induction sched as [|i sched IH]; intros log ws; cbn [au_run fold_left au_emitted au_sys_step].
+  - cbn. rewrite app_nil_r. reflexivity.
+  - destruct (nth_error ws i) as [[|x rest]|] eqn:E; try apply IH.
+    fold (au_run sched (log ++ au_frame x, cset_nth ws i rest)). rewrite IH. cbn [flat_map]. rewrite app_assoc. reflexivity.
+Qed.
+
+Lemma au_run_ws : forall sched log log' ws, snd (au_run sched (log, ws)) = snd (au_run sched (log', ws)).
+Proof.
+  induction sched as [|i sched IH]; intros log log' ws; cbn [au_run fold_left au_sys_step]; auto.
+  destruct (nth_error ws i) as [[|x rest]|]; apply IH.
+Qed.
+
+Lemma concat_cset_nth_perm : forall (ws : list (list bytes)) i x rest,
+  nth_error ws i = Some (x :: rest) -> Permutation (x :: concat (cset_nth ws i rest)) (concat ws).
+Proof.
+  induction ws as [|w ws IH]; intros [|i] x rest H; cbn in *; try discriminate.
+  - inversion H; subst. reflexivity.
+  - apply IH in H. rewrite <- H. cbn. rewrite Permutation_middle. reflexivity.
+Qed.
+
+(* emitted records + records still to write = all records, as a multiset *)
+Lemma au_emitted_perm : forall sched log ws,
+  Permutation (au_emitted sched ws ++ concat (snd (au_run sched (log, ws)))) (concat ws).
+Proof.
+  induction sched as [|i sched IH]; intros log ws; cbn [au_run fold_left au_emitted au_sys_step].
+  - reflexivity.
+  - destruct (nth_error ws i) as [[|x rest]|] eqn:E; try apply IH.
+    fold (au_run sched (log ++ au_frame x, cset_nth ws i rest)).
+    cbn [app]. rewrite (IH _ (cset_nth ws i rest)). apply concat_cset_nth_perm, E.
+Qed.
+
+(* for EVERY interleaving of the writers the log is a sequence of WHOLE framed records, and the
+   records in it together with those not yet written are exactly the records of the writers *)
+Theorem au_whole_records : forall sched ws,
+  exists emitted,
+    fst (au_run sched ([], ws)) = flat_map au_frame emitted /\
+    Permutation (emitted ++ concat (snd (au_run sched ([], ws)))) (concat ws).
+Proof.
+  intros sched ws. exists (au_emitted sched ws). split.
+  - rewrite au_run_log. reflexivity.
+  - apply au_emitted_perm.
+Qed.
+
+Lemma is_prefix_split : forall p s, is_prefix p s = true -> s = p ++ skipn (length p) s.
+Proof.
+  induction p as [|x p IH]; intros [|y s] H; cbn in *; try discriminate; auto.
+  apply andb_true_iff in H as [H1 H2]. apply N.eqb_eq in H1. subst. f_equal. auto.
+Qed.
+
+Lemma au_take_some : forall ws rest k i rest',
+  au_take ws rest k = Some (i, rest') ->
+  k <= i /\ exists x wr, nth_error ws (i - k) = Some (x :: wr) /\ rest = au_frame x ++ rest'.
+Proof.
+  induction ws as [|[|x w] ws IH]; intros rest k i rest' H; cbn [au_take] in H; try discriminate.
+  - apply IH in H as (Hk & x & wr & N & R). split; [lia|]. exists x, wr. split; auto.
+    replace (i - k) with (S (i - S k)) by lia. exact N.
+  - destruct (is_prefix (au_frame x) rest) eqn:P.
+    + inversion H; subst. split; [lia|]. exists x, w. rewrite Nat.sub_diag. split; auto. apply is_prefix_split, P.
+    + apply IH in H as (Hk & x' & wr & N & R). split; [lia|]. exists x', wr. split; auto.
+      replace (i - k) with (S (i - S k)) by lia. exact N.
+Qed.
+
+(* the decision procedure run on an observed log is sound: when it answers Some sch, the model
+   produces exactly that log under schedule sch and every writer has finished *)
+Theorem au_explain_sound : forall fuel ws log sch,
+  au_explain fuel ws log = Some sch ->
+  forall log0, fst (au_run sch (log0, ws)) = log0 ++ log /\
+               forallb (fun w => match w with [] => true | _ => false end) (snd (au_run sch (log0, ws))) = true.
+Proof.
+  induction fuel as [|fuel IH]; intros ws log sch H log0.
+  - destruct log; cbn in H; [|discriminate].
+    destruct (forallb _ ws) eqn:F; [|discriminate]. inversion H; subst. cbn. rewrite app_nil_r. auto.
+  - destruct log as [|b log]; cbn [au_explain] in H.
+    + destruct (forallb _ ws) eqn:F; [|discriminate]. inversion H; subst. cbn. rewrite app_nil_r. auto.
+    + destruct (au_take ws (b :: log) 0) as [[i rest]|] eqn:T; [|discriminate].
+      apply au_take_some in T as (_ & x & wr & N & R). rewrite Nat.sub_0_r in N. rewrite N in H.
+      destruct (au_explain fuel (cset_nth ws i wr) rest) as [sch'|] eqn:E; [|discriminate].
+      inversion H; subst sch. cbn [au_run fold_left au_sys_step]. rewrite N.
+      fold (au_run sch' (log0 ++ au_frame x, cset_nth ws i wr)).
+      destruct (IH _ _ _ E (log0 ++ au_frame x)) as [A B]. split; auto.
+      rewrite A, R, app_assoc. reflexivity.
+Qed.
